@@ -12,7 +12,9 @@ Tie: the table (translator) + correspondence: all shape pairs with 0..3 axes of
 length 0..4 through the real binary operator vs the Lean model vs NumPy; every
 axis/shape argument in [-ndim-1, ndim+1] of every function taking one (accept /
 reject and result shape vs NumPy on concrete operands); every intermediate node
-of generated programs: declared shape vs the reference evaluator's result."""
+of generated programs: declared shape vs the reference evaluator's result; axis TUPLES (mixed signs, duplicates)
+for expand_dims / squeeze / reductions / transpose; n-ary dtype inference (promotion is not associative): all
+ordered dtype TRIPLES through concatenate / stack / einsum / where / maximum-minimum chains vs NumPy's functions."""
 from __future__ import annotations
 
 import itertools
@@ -275,7 +277,7 @@ def batch_dtype_nary(ctx):
     ctx.note_batch("dtype-nary-triples", cases, dis, exhaustive=True, dtypes=dts, functions=list(fns), **stats)
 
 
-REPORT_DUPLICATE_REDUCTION_AXES = False
+REPORT_DUPLICATE_REDUCTION_AXES = True
 
 
 def batch_axis_tuples(ctx):
